@@ -762,7 +762,7 @@ func (c *Ctx) helpScan() *ssa.Function {
 			// the two names kept in a read-only package-level table
 			ir.Instrs(fn, func(in ssa.Instruction) {
 				if ld, ok := in.(*ssa.UnOp); ok && ld.Op == token.MUL {
-					if g, isG := ld.X.(*ssa.Global); isG && isStringSlice(ld.Type()) {
+					if g, isG := ld.X.(*ssa.Global); isG && (isStringSlice(ld.Type()) || isStringArray(ld.Type())) {
 						if ss, okT := globalTableStrings(c, g); okT {
 							for _, s := range ss {
 								if s == "-h" {
@@ -901,7 +901,7 @@ func cmd3(c *Ctx) {
 				return
 			}
 			isSplit := func(v ssa.Value) bool {
-				sv, isCall := v.(*ssa.Call)
+				sv, isCall := unclamp(v, args).(*ssa.Call)
 				if !isCall {
 					return false
 				}
@@ -1151,7 +1151,29 @@ func cmd4(c *Ctx) {
 		}
 	}
 	if okB, _ := noBreak(hdr); !okB {
-		okEnd = false
+		// the only way out of the loop besides exhaustion: the `--` test breaking into the same `return -1`
+		onlyDD := exit != nil && len(exit.Instrs) == 1
+		if onlyDD {
+			for _, p := range exit.Preds {
+				if p == hdr {
+					continue
+				}
+				isDD := false
+				if iff, ok := p.Instrs[len(p.Instrs)-1].(*ssa.If); ok && p.Succs[0] == exit {
+					if bo, isBo := iff.Cond.(*ssa.BinOp); isBo && bo.Op == token.EQL && bo.X == tok {
+						if sv, isS := ir.ConstString(bo.Y); isS && sv == "--" {
+							isDD = true
+						}
+					}
+				}
+				if !isDD {
+					onlyDD = false
+				}
+			}
+		}
+		if !onlyDD {
+			okEnd = false
+		}
 	}
 	c.Check(okEnd, key+":none-found", fn.Pos(), "-1 when the vector is exhausted", "the exhausted scan does not return -1")
 }
@@ -1173,13 +1195,20 @@ func (c *Ctx) stringSet(v ssa.Value) []string {
 	return nil
 }
 
+func isStringArray(t types.Type) bool {
+	a, ok := t.Underlying().(*types.Array)
+	return ok && isStringType(a.Elem())
+}
+
 func sliceLitStrings(v ssa.Value) []string {
-	sl, ok := v.(*ssa.Slice)
-	if !ok {
-		return nil
+	var al *ssa.Alloc
+	if sl, ok := v.(*ssa.Slice); ok {
+		al, _ = sl.X.(*ssa.Alloc)
+	} else if ld, ok := v.(*ssa.UnOp); ok && ld.Op == token.MUL && isStringArray(ld.Type()) {
+		// a local array literal read as a value
+		al, _ = ld.X.(*ssa.Alloc)
 	}
-	al, ok := sl.X.(*ssa.Alloc)
-	if !ok {
+	if al == nil {
 		return nil
 	}
 	var out []string
@@ -1569,6 +1598,10 @@ func cmd5first(c *Ctx, fn *ssa.Function) {
 				cut[ir.Edge{From: setLoop, To: exit}] = true
 			}
 		}
+		// an empty set has been compared in full
+		for _, e := range lenOnlyZeroEdges(fn, set) {
+			cut[e] = true
+		}
 		reach := ir.Reach(fn.Blocks[0], nil, cut)
 		for _, r := range falses {
 			if r.ReachableUnder(reach, cut) {
@@ -1587,6 +1620,18 @@ func cmd5first(c *Ctx, fn *ssa.Function) {
 // lenOnlyZeroEdges: the CFG edges taken on an outcome of a test len(v) op k that is possible for length 0
 // and impossible for every positive length.
 func lenOnlyZeroEdges(fn *ssa.Function, v ssa.Value) []ir.Edge {
+	return lenOnlyZeroEdgesP(fn, func(x ssa.Value) bool { return x == v })
+}
+
+// lenOnlyZeroEdgesLike: the same for every read of the place v is read from (another load of the same
+// field of the same object is the same collection as long as nothing is stored in between; the callers
+// use it for collections the function does not write).
+func lenOnlyZeroEdgesLike(fn *ssa.Function, v ssa.Value) []ir.Edge {
+	k := ir.ExprKey(v)
+	return lenOnlyZeroEdgesP(fn, func(x ssa.Value) bool { return x == v || ir.ExprKey(x) == k })
+}
+
+func lenOnlyZeroEdgesP(fn *ssa.Function, is func(ssa.Value) bool) []ir.Edge {
 	var out []ir.Edge
 	ir.Instrs(fn, func(in ssa.Instruction) {
 		bo, ok := in.(*ssa.BinOp)
@@ -1601,7 +1646,7 @@ func lenOnlyZeroEdges(fn *ssa.Function, v ssa.Value) []ir.Edge {
 		if !isCall {
 			return
 		}
-		if bi, isB := lc.Call.Value.(*ssa.Builtin); !isB || bi.Name() != "len" || lc.Call.Args[0] != v {
+		if bi, isB := lc.Call.Value.(*ssa.Builtin); !isB || bi.Name() != "len" || !is(lc.Call.Args[0]) {
 			return
 		}
 		for _, want := range []bool{true, false} {
@@ -1830,6 +1875,45 @@ func edgeOutTrue(v ssa.Value, at *ssa.BasicBlock) bool {
 	return ok && iff.Cond == v && len(at.Succs) == 2 && at.Succs[0] != at.Succs[1] && false
 }
 
+// unclamp: v = min(x, len(vec)) written as `if x > len(vec) { x = len(vec) }` is x for a level split
+// (CMD-7 shows the split never exceeds the length; the clamp is a guard that cannot fire).
+func unclamp(v ssa.Value, vec ssa.Value) ssa.Value {
+	phi, ok := v.(*ssa.Phi)
+	if !ok || len(phi.Edges) != 2 {
+		return v
+	}
+	for i := 0; i < 2; i++ {
+		x, l := phi.Edges[i], phi.Edges[1-i]
+		lc, isCall := l.(*ssa.Call)
+		if !isCall {
+			continue
+		}
+		if bi, isB := lc.Call.Value.(*ssa.Builtin); !isB || bi.Name() != "len" || lc.Call.Args[0] != vec {
+			continue
+		}
+		pred := phi.Block().Preds[1-i]
+		good := false
+		if x.Referrers() != nil {
+			for _, u := range *x.Referrers() {
+				bo, isBo := u.(*ssa.BinOp)
+				if !isBo {
+					continue
+				}
+				yl, isYl := bo.Y.(*ssa.Call)
+				if bo.X == x && isYl && bo.Op == token.GTR {
+					if bi, isB := yl.Call.Value.(*ssa.Builtin); isB && bi.Name() == "len" && yl.Call.Args[0] == vec && ir.HoldsAt(bo, true, pred) {
+						good = true
+					}
+				}
+			}
+		}
+		if good {
+			return x
+		}
+	}
+	return v
+}
+
 func cmd6(c *Ctx) {
 	fn := c.dispatch()
 	if fn == nil {
@@ -1865,7 +1949,14 @@ func cmd6(c *Ctx) {
 		c.Undecided(Q(fn)+":split", fn.Pos(), "level split call / doInit / State.Parse not found")
 		return
 	}
-	nLin := lin{t: map[linKey]int64{{split, false}: 1}}
+	// the value used for the split: the call's result, or that result behind a clamp to len(args)
+	var splitV ssa.Value = split
+	ir.Instrs(fn, func(in ssa.Instruction) {
+		if phi, ok := in.(*ssa.Phi); ok && unclamp(phi, args) == ssa.Value(split) {
+			splitV = phi
+		}
+	})
+	nLin := lin{t: map[linKey]int64{{splitV, false}: 1}}
 	// validation call
 	var val *ssa.Call
 	for _, call := range ir.Calls(fn) {
@@ -1877,7 +1968,7 @@ func cmd6(c *Ctx) {
 	if val != nil {
 		if _, f, ok := ir.FieldLoad(val.Call.Args[0]); ok && f == "fsm" {
 			if b, _, _ := ir.FieldLoad(val.Call.Args[0]); b == ssa.Value(recv) {
-				if sl, isSl := val.Call.Args[1].(*ssa.Slice); isSl && sl.X == ssa.Value(args) && sl.Low == nil && sl.High == ssa.Value(split) {
+				if sl, isSl := val.Call.Args[1].(*ssa.Slice); isSl && sl.X == ssa.Value(args) && sl.Low == nil && sl.High == splitV {
 					okVal = true
 				}
 			}
@@ -2057,6 +2148,24 @@ func cmd7(c *Ctx) {
 				// after the scan is exhausted the count is len(args)
 				if r.Block() == hdr.Succs[1] || ir.EdgeDominates(hdr, hdr.Succs[1], r.Block()) {
 					continue
+				}
+				// so it is when there is no sub-command to stop at
+				var cmds ssa.Value
+				ir.Instrs(fn, func(in ssa.Instruction) {
+					if v, ok := in.(ssa.Value); ok {
+						if b, f, isF := ir.FieldLoad(v); isF && f == "commands" && b == ssa.Value(recv) {
+							cmds = v
+						}
+					}
+				})
+				if cmds != nil {
+					cut := map[ir.Edge]bool{}
+					for _, e := range lenOnlyZeroEdgesLike(fn, cmds) {
+						cut[e] = true
+					}
+					if len(cut) > 0 && !r.ReachableUnder(ir.Reach(fn.Blocks[0], nil, cut), cut) {
+						continue
+					}
 				}
 			}
 		}
